@@ -83,8 +83,24 @@ def gen_case(rng, idx, tier):
                          'expect': bool(rng.random() < 0.5)})
     full = copy.deepcopy(spec)
     full['rows'] = spec['rows'] + ext_rows
+    late_moment = None
+    if rng.random() < 0.45 and not spec.get('wass'):
+        # an expectation set added (through scenario indexing) after the first formulation
+        Sn = spec['S']
+        ev = sorted(rng.choice(Sn, size=int(rng.integers(1, Sn + 1)), replace=False).tolist())
+        if ev not in [m_['event'] for m_ in spec['moments']]:
+            ph = np.array(spec['pset']['phat'], float)
+            cen = np.array(spec['centers'], float)
+            mu = (ph[ev] / ph[ev].sum()) @ cen[ev]
+            w = np.round(rng.uniform(0.02, 0.25, nz), 2)
+            late_moment = {'event': ev, 'prims': [{'t': 'box', 'lo': (mu - w).tolist(),
+                                                   'hi': (mu + w).tolist(),
+                                                   'idx': list(range(nz))}]}
+            full['moments'] = spec['moments'] + [late_moment]
+    ops['late_exptset'] = late_moment is not None
     DR._calibrate(full, rng)
     return {'front': 'dro', 'spec': spec, 'full': full, 'ops': ops, 'wrong': wrong,
+            'late_moment': late_moment,
             'hseed': int(rng.integers(1 << 30))}
 
 
@@ -368,6 +384,13 @@ def run_dro(spec, ctx):
                 except Exception as e:
                     if 'license' not in str(e):
                         raise
+        if spec.get('late_moment'):
+            lm = spec['late_moment']
+            sel = DR.scen_selector(BH.fset, base, lm['event'], hr)
+            if sel is BH.fset and hr.random() < 0.5 and len(lm['event']) > 1:
+                sel = BH.fset.iloc[lm['event']]
+            sel.exptset(S.build_rsome(lm['prims'], rso.E(BH.z), hr))
+            events.append('late_exptset')
         if ops['late_dvar']:
             wv = m.dvar(1)
             m.st(wv <= 1.0, wv >= 0.0)
